@@ -504,10 +504,19 @@ def nontrivial(spec):
 # ---------------------------------------------------------------------------------------
 # expected composition tree of a specification, as a Coq term of type `node`
 # ---------------------------------------------------------------------------------------
+def _same_object(e):
+    """both operands are the same live object (the same prior of the pool)"""
+    return e["l"]["t"] == "prior" and e["r"]["t"] == "prior" and e["l"]["ref"] == e["r"]["ref"]
+
+
 def left_name(e, rename):
+    """retrieve_name keeps the LAST local name bound to the object in the outermost frame that has one:
+    the chosen variable name; `other` for a literal (bound in ArithmeticMixin.__op__); when both operands
+    are one object, the name inserted last (the right one) for both"""
     if e["l"]["t"] == "float":
         return "other"
-    v = rename.get(e["lv"], e["lv"])
+    v = e["rv"] if _same_object(e) else e["lv"]
+    v = rename.get(v, v)
     return "left_" if v == "left" else v
 
 
